@@ -57,6 +57,20 @@ def run(tier, seed):
                     samples.append(json.loads(line) if len(line) < 1500 else line[:200])
                 if len(samples) >= 6:
                     break
+    # determinate outage with a backlog of more than one journal batch (1024 entries) in a shard: every
+    # record write of every batch fails (clean-up succeeds), the device heals, the next flush must make
+    # the WHOLE backlog durable before it returns Ok
+    ojobs = []
+    for i in range(3 if tier == "quick" else 12):
+        ojobs.append(("outage%d" % i, ["--seed", str(rng.randrange(1 << 30)), "--steps", str(rng.choice([6, 10])),
+                                        "--fillers", str([1500, 1100, 2100, 1300][i % 4]), "--faultat", "0", "--faultmode", "3",
+                                        "--forcesync", "1", "--keys", "3", "--cpus", "2", "--blocks", "2400", "--fmt", "3",
+                                        "--ttl", "1", "--end", "drop", "--maximages", "60", "--cc", "0"]))
+    placements += len(ojobs)
+    viol, st, traces = ce.run_and_validate(PROP, fxv, rd, ojobs, INV, par_tlc=6)
+    all_viol += viol
+    for k in tot:
+        tot[k] += st.get(k, 0)
     cov = {
         "evaluations": placements, "distinct_nontrivial": tot["traces"],
         "rule": "one case = one workload run with one fault placement: (device call index i, fail before the "
